@@ -615,4 +615,6 @@ for _cls in (_SyncStream, _SyncSerial, _SyncDgram, _AioStream, _AioDgram, _TwStr
         if _name in _cls.__dict__:
             setattr(_cls, _name, _watched(_cls.__dict__[_name], _ret))
 Server.dgram_burst = _watched(Server.dgram_burst, list)
+Server.shutdown = _watched(Server.shutdown, None)
+Server.__init__ = _watched(Server.__init__, None)
 
